@@ -8,6 +8,7 @@ from ..tables import base_name, URI_FIELDS, HOSTDATA_FIELDS
 from ..ir import sizeof_type
 from .. import shared, pp
 
+RETRY_INLINED = True
 LEVEL = 'proof'
 
 
@@ -375,6 +376,19 @@ def _compare_range(ctx, chk, prog, irp, suf):
             if c.k == 'bin' and c.v in ('==', '!=') and {expr_key(c.c[0]), expr_key(c.c[1])} == {a, b}:
                 if truth == (c.v == '=='):
                     facts = facts | {('same', a, b)}
+            if c.k == 'bin' and c.v in ('==', '!=') and (const_value(c.c[1], prog) == 0 or const_value(c.c[0], prog) == 0) \
+                    and '*' not in (c.c[0].ty or '') and '*' not in (c.c[1].ty or ''):
+                # `d != 0` false (or `d == 0` true) establishes d = 0: neither positive nor negative
+                side = c.c[0] if const_value(c.c[1], prog) == 0 else c.c[1]
+                k = expr_key(side)
+                sym = k
+                for x in facts:
+                    if isinstance(x, tuple) and x[0] == 'sym' and x[1] == k:
+                        sym = x[2]
+                if truth == (c.v == '=='):
+                    facts = facts | {('sign', sym, '>', False), ('sign', sym, '<', False)}
+                else:
+                    facts = facts | {('nonzero', sym)}
             if c.k == 'bin' and c.v in ('>', '<', '>=', '<=') and const_value(c.c[1], prog) == 0:
                 k = expr_key(c.c[0])
                 sym = k
@@ -382,6 +396,8 @@ def _compare_range(ctx, chk, prog, irp, suf):
                     if isinstance(x, tuple) and x[0] == 'sym' and x[1] == k:
                         sym = x[2]
                 facts = facts | {('sign', sym, c.v, truth)}
+                if ('nonzero', sym) in facts and ('sign', sym, '>', False) in facts and ('sign', sym, '<', False) in facts:
+                    return None         # d != 0, not d > 0, not d < 0: no such integer
             return facts
 
         def ret(self, blk, term, facts):
@@ -412,9 +428,17 @@ def _compare_range(ctx, chk, prog, irp, suf):
     # every path that can return 0 with both operands present has compared the lengths and the texts
     bad_zero = None
     nzero = 0
+    def retconst(e, facts):
+        cv = const_value(e, prog)
+        if cv is None and e is not None:
+            k = expr_key(e)
+            for x in facts:
+                if isinstance(x, tuple) and x[0] == 'val' and x[1] == k:
+                    return x[2]
+        return cv
     for loc, e, facts in h.rets:
         fs = set(facts)
-        cv = const_value(e, prog)
+        cv = retconst(e, facts)
         if cv is not None and cv != 0:
             continue
         if (('null', a) in fs) or (('null', b) in fs) or (('null', '%s->first' % a) in fs) or (('null', '%s->first' % b) in fs):
@@ -436,7 +460,7 @@ def _compare_range(ctx, chk, prog, irp, suf):
     else:
         chk.ok('compare-range', key, f.loc, '%d zero-capable return states: lengths and texts compared on each' % nzero, func=name)
     # length comparison present: some path returns a non-zero constant under a sign test of the length difference
-    lens = [1 for loc, e, facts in h.rets if const_value(e, prog) in (1, -1) and
+    lens = [1 for loc, e, facts in h.rets if retconst(e, facts) in (1, -1) and
             any(isinstance(x, tuple) and x[0] == 'sign' and 'afterLast' in x[1] for x in facts)]
     key = 'cmp:%s/length' % bn
     difflen = any(isinstance(x, tuple) and x[0] == 'sym' and 'afterLast' in x[2] and '-' in x[2]
